@@ -144,6 +144,64 @@ def normalising_rule(ctx, rule, want_file, floor):
         raise AnalysisError(f"only {nsite} quaternion-kernel call sites found")
 
 
+def element_index_agreement(ctx):
+    """The element routines depend on the element through the reference data of that element (J[el], B_Gamma0[el], quadrature
+    points, ...).  In every assembly loop `for el in range(self.nelement)` of the rod classes, `self.<X>_el(...)` must receive the
+    loop variable, the element tables `self.elDOF*[...]` must be subscripted with it, and no element routine evaluated for a fixed
+    element outside the loop may be scattered into all elements."""
+    rep = ctx.rep
+    n = 0
+    seen = set()
+    for rel, mod in ctx.repo.modules.items():
+        if not rel.startswith("cardillo/rods/"):
+            continue
+        for q, fn in mod.defs().items():
+            if not isinstance(fn, ast.FunctionDef) or id(fn) in seen:
+                continue
+            seen.add(id(fn))
+            loops = [w for w in walk_no_nested(fn) if isinstance(w, ast.For) and isinstance(w.target, ast.Name)
+                     and norm_src(w.iter) in ("range(self.nelement)", "range(0, self.nelement)")]
+            if not loops:
+                continue
+            C = f"{rel}:{q}"
+            inside = set()
+            for lp in loops:
+                var = lp.target.id
+                for w in ast.walk(lp):
+                    inside.add(id(w))
+                    if isinstance(w, ast.Call) and isinstance(w.func, ast.Attribute) and dotted(w.func.value) == "self" and w.func.attr.endswith("_el"):
+                        n += 1
+                        args = [norm_src(a) for a in w.args] + [norm_src(k.value) for k in w.keywords]
+                        if var in args:
+                            rep.ok("C11.R7", C, f"self.{w.func.attr}(..., {var})")
+                        else:
+                            rep.bad("C11.R7", C, w, f"`self.{w.func.attr}` is evaluated inside the loop over the elements without the loop variable `{var}` "
+                                    f"(arguments {args}): every element gets the contribution of another element", f"{rel}:{w.lineno}")
+                    if isinstance(w, ast.Subscript) and (dotted(w.value) or "").startswith("self.elDOF"):
+                        n += 1
+                        idx = norm_src(w.slice)
+                        if idx == var or idx.startswith(var + ","):
+                            rep.ok("C11.R7", C, f"{norm_src(w)}")
+                        else:
+                            rep.bad("C11.R7", C, w, f"element table `{norm_src(w.value)}` is subscripted with `{idx}` inside the loop over `{var}`", f"{rel}:{w.lineno}")
+            # element routines evaluated outside the loop but used inside it
+            outer = {}
+            for st in walk_no_nested(fn):
+                if isinstance(st, ast.Assign) and id(st) not in inside and isinstance(st.targets[0], ast.Name):
+                    for w in ast.walk(st.value):
+                        if isinstance(w, ast.Call) and isinstance(w.func, ast.Attribute) and dotted(w.func.value) == "self" and w.func.attr.endswith("_el"):
+                            outer[st.targets[0].id] = (st, w)
+            for name, (st, call) in outer.items():
+                used = any(isinstance(w, ast.Name) and w.id == name and id(w) in inside for lp in loops for w in ast.walk(lp))
+                if used:
+                    n += 1
+                    rep.bad("C11.R7", C, st, f"`{norm_src(call)}` is evaluated once, for a fixed element, outside the loop over the elements and `{name}` is then used for every "
+                            "element: the element routines depend on the element's own reference data (J[el], reference strains), so the assembled quantity is wrong whenever "
+                            "the elements are not congruent", f"{rel}:{st.lineno}")
+    if n < 25:
+        raise AnalysisError(f"C11.R7: only {n} element-loop instances found")
+
+
 def run(ctx):
     rep = ctx.rep
     rep.rule("C11.R1", "chain-rule coverage of rod derivatives (K5) and material tangents", 20)
@@ -151,6 +209,8 @@ def run(ctx):
     rep.rule("C11.R3", "normalising quaternion kernels / non-normalising kinematic equation", 20)
     rep.rule("C11.R4", "q_dot / q_dot_u kernel agreement", 2)
     rep.rule("C11.R5", "mass matrix, kinetic energy and gyroscopic forces integrate the same data", 3)
+    rep.rule("C11.R7", "element loops: every element routine and every element index table inside `for el in range(self.nelement)` is evaluated for THAT element", 25)
+    element_index_agreement(ctx)
     rep.rule("C11.R6", "rod routines never modify the (memoised) output of the interpolation kernels in place: a reported derivative is the same on every call", 30)
     from . import c26
     c26.r3_poison(ctx, c26.find_sites(ctx), rule="C11.R6", want_file=lambda rel: rel.startswith("cardillo/rods/"), floor=30)
@@ -328,6 +388,13 @@ RODB_ = "cardillo/rods/_base.py"
 MUTANTS += [
     dict(id="c11-r6-seed", canary=True, what="[seeded by sub-agent] rod r_OP_q adds the offset term in place to the memoised centerline Jacobian", file=RODB_,
          old="        return r_OC_q + np.einsum(\"ijk,j->ik\", A_IB_q, B_r_CP)\n\n    def v_P(", new="        r_OC_q += np.einsum(\"ijk,j->ik\", A_IB_q, B_r_CP)\n        return r_OC_q\n\n    def v_P(", expect="C11.R6"),
+]
+MUTANTS += [
+    dict(id="c11-r7-seed", canary=True, what="[seeded by sub-agent] _M_coo integrates the element mass matrix once (element 0) and scatters it into all elements", file=RODB_,
+         old="        for el in range(self.nelement):\n            # extract element degrees of freedom\n            elDOF_u = self.elDOF_u[el]\n\n            # sparse assemble element mass matrix\n            self.__M[elDOF_u, elDOF_u] = self.M_el(el)",
+         new="        M_el = self.M_el(0)\n        for el in range(self.nelement):\n            # extract element degrees of freedom\n            elDOF_u = self.elDOF_u[el]\n\n            # sparse assemble element mass matrix\n            self.__M[elDOF_u, elDOF_u] = M_el", expect="C11.R7"),
+    dict(id="c11-r7-2", what="rod h scatters the internal forces of the previous element", file=RODB_,
+         old="            h[elDOF_u] += self.f_int_el(q[elDOF], el) - self.f_gyr_el(", new="            h[elDOF_u] += self.f_int_el(q[elDOF], el - 1) - self.f_gyr_el(", expect="C11.R7"),
 ]
 NEUTRAL = [
     dict(id="c11-n-r6", what="rod r_OP_q accumulates into a private copy", file=RODB_,
